@@ -29,7 +29,7 @@ COMPONENTS_STUB = ["kernel TCP (SimNet; connect error texts are script-controlle
 ASSUMPTIONS = ["an error page is recognised by the Server: mitmproxy header and status >= 400",
                "P (peers/h1.py) decides framing"]
 EXPECTED_PROBES = ["error_pages", "marker_in_page", "page_400", "page_502", "page_413_or_body_limit", "connect_error_page",
-                   "head_request_error"]
+                   "head_request_error", "error_after_keepalive_exchange", "error_after_head_exchange"]
 
 MARK = re.compile(rb"zq(\d+)")
 
@@ -98,17 +98,32 @@ def generate(rng, tier):
     head = f"{method} {target} {version}\r\n" + "".join(f"{k}: {v}\r\n" for k, v in headers) + "\r\n"
     data = head.encode("latin1") + body
     cuts = G.gen_cuts(r, len(data), r.choice(["none", "none", "few"]))
-    steps = [{"op": "send", "data": G.S(data), "cuts": cuts, "gaps": [r.choice([0.001, 0.01]) for _ in range(len(cuts) + 1)]},
-             {"op": "await", "n": 1, "timeout": 30.0}]
+    # the failing exchange may follow clean keep-alive exchanges on the same connection (state left over from an
+    # earlier request, e.g. its method, must not shape the error answer)
+    pre, steps, replies = [], [], {}
+    if kind not in ("connect_error", "server_connect_set_error") and r.random() < 0.4:
+        for j in range(r.choice([1, 1, 2])):
+            pm = r.choice(["HEAD", "HEAD", "GET", "POST"])
+            pb = "hello" if pm == "POST" else ""
+            ptarget = ("http://a.test" if form == "absolute" else "") + f"/p{j}/clean"
+            pdata = f"{pm} {ptarget} HTTP/1.1\r\nHost: a.test\r\n" + (f"Content-Length: {len(pb)}\r\n" if pb else "") + "\r\n" + pb
+            steps += [{"op": "send", "data": pdata, "cuts": [], "gaps": []}, {"op": "await", "n": j + 1, "timeout": 30.0}]
+            replies[str(j)] = {"data": f"HTTP/1.1 200 OK\r\nX-P{j}: w\r\nContent-Length: 2\r\n\r\n" + ("" if pm == "HEAD" else "ok"),
+                               "then": "keep", "cuts": [], "gaps": [0.0]}
+            pre.append(pm)
+    npre = len(pre)
+    steps += [{"op": "send", "data": G.S(data), "cuts": cuts, "gaps": [r.choice([0.001, 0.01]) for _ in range(len(cuts) + 1)]},
+              {"op": "await", "n": npre + 1, "timeout": 30.0}]
     if r.random() < 0.3:
         steps += [{"op": "send", "data": f"GET {'http://a.test' if form == 'absolute' else ''}/r1/second HTTP/1.1\r\nHost: a.test\r\n\r\n",
-                   "cuts": [], "gaps": []}, {"op": "await", "n": 2, "timeout": 10.0}]
+                   "cuts": [], "gaps": []}, {"op": "await", "n": npre + 2, "timeout": 10.0}]
     steps.append({"op": "fin"})
     reply["cuts"] = G.gen_cuts(r, len(reply["data"]), r.choice(["none", "few"]))
     reply["gaps"] = [r.choice([0.0, 0.01]) for _ in range(len(reply["cuts"]) + 1)]
-    origin = {"kind": "h1", "replies": {"0": reply}, "idle_close": 5.0, "connect": connect}
-    return {"family": "errpage-" + kind, "modes": [mode], "eager": r.random() < 0.5, "options": options,
-            "clients": [{"steps": steps, "methods": [method, "GET"],
+    replies[str(npre)] = reply
+    origin = {"kind": "h1", "replies": replies, "idle_close": 5.0, "connect": connect}
+    return {"family": "errpage-" + kind, "modes": [mode], "eager": r.random() < 0.5, "options": options, "pre": pre,
+            "clients": [{"steps": steps, "methods": pre + [method, "GET"],
                          "original_dst": ["a.test", 80] if mode == "transparent" else None}],
             "origins": {"*": origin}, "policy": policy, "faults": [], "settle": 30.0, "kind": kind, "method": method}
 
@@ -127,8 +142,9 @@ def oracle(sc, obs):
         cp = P.parse_requests(c.sent)
         methods = [m.method for m in cp.msgs]
         # where P refuses the client's own syntax take the scripted method (HEAD-ness matters for framing)
-        if not methods:
-            methods = [H.B(sc["method"])]
+        scripted = [H.B(x) for x in sc.get("pre", [])] + [H.B(sc["method"])]
+        if len(methods) < len(scripted):
+            methods += scripted[len(methods):]
         rp = P.parse_responses(c.received, methods + [b"GET"] * 3, c.proxy_closed)
         pages = [m for m in rp.msgs if (m.get(b"server") or b"").startswith(b"mitmproxy") and m.status >= 400]
         any_page = b"Server: mitmproxy" in c.received
@@ -136,7 +152,7 @@ def oracle(sc, obs):
             v.append({"class": "error_page_misframed", "key": {"status": rp.status, "reason": re.sub(r"[^a-zA-Z ].*$", "", rp.reason)[:40],
                                                                  "head_request": sc["method"] == "HEAD",
                                                                  # did mitmproxy get as far as recording the request?
-                                                                 "flow_recorded": bool(obs.flow_objs)},
+                                                                 "flow_recorded": len(obs.flow_objs) > len(sc.get("pre", []))},
                       "msg": f"client stream containing an error page does not parse cleanly: {rp.status} {rp.reason}; "
                              f"rest={rp.rest[:100]!r}"})
         for i, m in enumerate(pages):
@@ -144,6 +160,10 @@ def oracle(sc, obs):
             bump({400: "page_400", 502: "page_502", 413: "page_413_or_body_limit"}.get(m.status, "page_other"))
             if sc["method"] == "HEAD":
                 bump("head_request_error")
+            if sc.get("pre"):
+                bump("error_after_keepalive_exchange")
+                if "HEAD" in sc["pre"] and sc["method"] != "HEAD":
+                    bump("error_after_head_exchange")
             if sc["kind"] in ("connect_error",):
                 bump("connect_error_page")
             ct = (m.get(b"content-type") or b"").lower()
